@@ -16,9 +16,25 @@ const NEST: &str = "l1/l2/l3/l4/l5/l6/l7/l8";
 #[derive(Clone, Debug)]
 pub struct Case {
     pub name: String,
-    /// None = single-file torrent; Some(path) = multi-file torrent whose first file has this path.
+    /// None = single-file torrent; Some(path) = multi-file torrent one of whose files has this path.
     pub path: Option<String>,
+    /// Which file of the torrent carries the path, and how long it is (index into LAYOUTS).
+    pub layout: usize,
 }
+
+/// (description, files; "@" stands for the enumerated path). Piece length is 4: the enumerated file
+/// is short / empty / spans a piece boundary, and sits first, in the middle or last.
+const LAYOUTS: [(&str, &[(&str, usize)]); 7] = [
+    ("first, 2 bytes", &[("@", 2), ("ok", 1)]),
+    ("first, empty", &[("@", 0), ("ok", 3)]),
+    ("last, empty", &[("ok", 3), ("@", 0)]),
+    ("middle, empty, on a piece boundary", &[("ok", 4), ("@", 0), ("ok2", 2)]),
+    ("last, 6 bytes over two pieces", &[("ok", 3), ("@", 6)]),
+    ("middle, 5 bytes over two pieces", &[("ok", 1), ("@", 5), ("ok2", 1)]),
+    ("only file, empty", &[("@", 0)]),
+];
+/// Single-file torrents: content lengths.
+const SINGLE_LENGTHS: [usize; 3] = [3, 0, 9];
 
 fn strings(max_components: usize, abs_prefix: &str) -> Vec<String> {
     let mut rel: Vec<String> = vec![];
@@ -104,15 +120,20 @@ fn reset(env: &Env) {
 pub fn check_case(env: &Env, c: &Case) -> Option<(&'static str, String)> {
     reset(env);
     let t = match &c.path {
-        None => Torrent::try_new(&c.name, 4, &[("ignored", 3)], true),
-        Some(p) => Torrent::try_new(&c.name, 4, &[(p.as_str(), 2), ("ok", 1)], false),
+        None => Torrent::try_new(&c.name, 4, &[("ignored", SINGLE_LENGTHS[c.layout % SINGLE_LENGTHS.len()])], true),
+        Some(p) => {
+            let files: Vec<(&str, usize)> = LAYOUTS[c.layout % LAYOUTS.len()].1.iter().map(|(n, l)| (if *n == "@" { p.as_str() } else { *n }, *l)).collect();
+            Torrent::try_new(&c.name, 4, &files, false)
+        }
     };
     let t = match t {
         Ok(t) => t,
         Err(e) if e.starts_with("PANIC") => return Some(("metainfo-panic", format!("{:?}: {}", c, e))),
         Err(_) => return None, // refused when the .torrent is read: nothing is extracted at all
     };
-    t.store_piece(&env.cwd, 0);
+    for i in 0..t.pieces.len() {
+        t.store_piece(&env.cwd, i);
+    }
     let before = listing(&env.root);
     let res = crate::c03::run_extractor(&env.rt, &t);
     let after = listing(&env.root);
@@ -127,7 +148,10 @@ pub fn check_case(env: &Env, c: &Case) -> Option<(&'static str, String)> {
         return Some((class, format!("{:?}: created outside the download directory: {:?}", c, outside.iter().map(|p| p.strip_prefix(&env.root).map(|r| r.display().to_string()).unwrap_or_else(|_| p.display().to_string())).collect::<Vec<_>>())));
     }
     // multi-file torrent with an ordinary one-component name: everything belongs under cwd/name
-    if c.path.is_some() && (c.name == "a" || c.name == "b") {
+    // (a files list with a single entry is stored like a single-file torrent, directly in the
+    // download directory: rdest's metainfo model calls a torrent multi-file when it lists several
+    // files, and C03's oracle reads it the same way)
+    if c.path.is_some() && LAYOUTS[c.layout % LAYOUTS.len()].1.len() > 1 && (c.name == "a" || c.name == "b") {
         let sub = env.cwd.join(&c.name);
         let stray: Vec<&PathBuf> = created.iter().filter(|p| !p.starts_with(&sub)).collect();
         if !stray.is_empty() {
@@ -143,13 +167,17 @@ pub fn check_case(env: &Env, c: &Case) -> Option<(&'static str, String)> {
 pub fn cases(thorough: bool, canary: &str) -> Vec<Case> {
     let mut out = vec![];
     for n in strings(3, canary) {
-        out.push(Case { name: n, path: None });
+        for layout in 0..SINGLE_LENGTHS.len() {
+            out.push(Case { name: n.clone(), path: None, layout });
+        }
     }
     let names = strings(if thorough { 2 } else { 1 }, canary);
     let paths = strings(3, canary);
     for n in &names {
         for p in &paths {
-            out.push(Case { name: n.clone(), path: Some(p.clone()) });
+            for layout in 0..LAYOUTS.len() {
+                out.push(Case { name: n.clone(), path: Some(p.clone()), layout });
+            }
         }
     }
     out
@@ -166,7 +194,7 @@ pub fn run(ctx: &Ctx) -> Outcome {
         },
         |env, _, c| {
             let canary = env.canary.display().to_string();
-            let c2 = Case { name: c.name.replace("@CANARY@", &canary), path: c.path.as_ref().map(|p| p.replace("@CANARY@", &canary)) };
+            let c2 = Case { name: c.name.replace("@CANARY@", &canary), path: c.path.as_ref().map(|p| p.replace("@CANARY@", &canary)), layout: c.layout };
             check_case(env, &c2)
         },
     );
@@ -177,17 +205,17 @@ pub fn run(ctx: &Ctx) -> Outcome {
             hostile += 1;
         }
         if let Some((class, summary)) = r {
-            ctx.violation(class, summary.clone(), json!({"name": c.name, "path": c.path}));
+            ctx.violation(class, summary.clone(), json!({"name": c.name, "path": c.path, "layout": c.layout}));
         }
     }
     let mut o = Outcome::new("exploration");
     o.set("evaluations", json!(all.len()));
     o.set("distinct_nontrivial", json!(hostile));
-    o.set("rule", json!(format!("strings = 1..=3 components from {:?} joined by '/', each also prefixed with an absolute canary directory; single-file torrents: every such name; multi-file torrents: every name of <= {} components x every such path for the first file; all (name, path) pairs distinct; non-trivial = a '..' component or an absolute path occurs", COMPONENTS, ctx.tier.pick(1, 2))));
+    o.set("rule", json!(format!("strings = 1..=3 components from {:?} joined by '/', each also prefixed with an absolute canary directory; single-file torrents: every such name x content length in {{3, 0, 9}} (piece length 4); multi-file torrents: every name of <= {} components x every such path x 7 layouts (the file carrying the path is first / middle / last / the only one, 2 bytes / empty / spanning two pieces); all cases distinct; non-trivial = a '..' component or an absolute path occurs", COMPONENTS, ctx.tier.pick(1, 2))));
     let picks = ctx.seeded_pick(all.len(), 5);
-    o.set("samples", Value::Array(picks.iter().map(|i| json!({"name": all[*i].name, "path": all[*i].path})).collect()));
+    o.set("samples", Value::Array(picks.iter().map(|i| json!({"name": all[*i].name, "path": all[*i].path, "layout": all[*i].layout})).collect()));
     o.set("exhaustive", json!(true));
-    o.assume("the download directory sits 8 levels and the canary 6 levels below a disposable root, so every '..' chain of the alphabet (<= 6 relative, <= 5 after the canary prefix) stays inside the listed tree; absolute paths are represented by the canary prefix only (nothing is aimed at the real filesystem root); symlinks are not in the alphabet");
+    o.assume("the download directory sits 8 levels and the canary 6 levels below a disposable root, so every '..' chain of the alphabet (<= 6 relative, <= 5 after the canary prefix) stays inside the listed tree; absolute paths are represented by the canary prefix only (nothing is aimed at the real filesystem root); symlinks are not in the alphabet; a files list with one entry counts as a single-file torrent (stored directly in the download directory), as in C03");
     o
 }
 
@@ -197,6 +225,7 @@ pub fn replay(_ctx: &Ctx, r: &Value) -> i32 {
     let c = Case {
         name: r["name"].as_str().unwrap().replace("@CANARY@", &canary),
         path: r["path"].as_str().map(|p| p.replace("@CANARY@", &canary)),
+        layout: r["layout"].as_u64().unwrap_or(0) as usize,
     };
     println!("case {:?} (download directory {})", c, env.cwd.display());
     match check_case(&env, &c) {
